@@ -159,6 +159,9 @@ COMPOSITE_FLAT = [
 
 @st.composite
 def flat_composite(draw, kx, kS, recipe):
+    if recipe == "cross-inexact-elimination":
+        S, x = draw(gen.flat_pair(kS, kx, recipe))
+        return (S, x, "composite/" + recipe)
     S = draw(gen.free_flat(kS))
     x = draw(gen.related_flat(S, kx, recipe))
     return (S, x, "composite/" + recipe)
